@@ -30,7 +30,7 @@ func init() {
 		// Not listed (outside the GoLite subset, see docs/audit/C08.md section GoLite):
 		// verifier.(*verifier).SkipVerify / Verify / VerifyBlob, where a selection error becomes
 		// notation.ErrorNoApplicableTrustPolicy{Msg: err.Error()}: call of (error).Error
-		// (verifier/verifier.go:249, 278, 360), reflect.DeepEqual (:256), and the verifier struct drags
+		// (verifier/verifier.go:249, 281, 363), reflect.DeepEqual (:256, 292, 375), and the verifier struct drags
 		// x509 / url / big.Int records into the file.
 	})
 }
